@@ -1,27 +1,28 @@
-(* MuWaitModel: executable model of internal/mu.c + internal/mu_wait.c with conditional
-   critical sections: lock, rlock, trylock, rtrylock, unlock, runlock, unlock_without_wakeup,
-   nsync_mu_wait_with_deadline (mu_try_acquire_after_timeout_or_cancel), lock_slow, the FULL
-   unlock_slow (conversion to a writer lock, release / re-take of the spinlock around condition
-   evaluation, multi-round new_waiters loop, skip_past_same_condition), nsync_maybe_merge_conditions_,
-   nsync_remove_from_mu_queue_ (remove_count, same_condition ring repair), nsync_spin_test_and_set_.
+(* F13 witness -- NOT part of the build (kept outside coq/).
+   The OLD model of internal/mu.c + internal/mu_wait.c (Model/MuWaitModel.v as it was BEFORE /repo commit 5890963,
+   "fix: nsync_mu_wait in reader mode could release the last lock without waking anyone"), verbatim in Module OldModel,
+   and the refutation of Properties_C06.C06_no_stuck_full on it: a reachable QUIESCENT world in which nobody holds the
+   mutex and a queued nsync_mu_wait caller's condition is TRUE (lost wake-up), plus the general hand-off form (a thread
+   asleep in nsync_mu_lock while the mutex is free and nobody is left to wake it).
 
-   One step = one atomic site of the C code (or one condition evaluation, or one abstract
-   semaphore operation) followed by the thread-local work up to the next such point.
-   Every value written to the mutex word comes from Gen/Sites.v, every mask from Gen/Consts.v.
-   Waiter records are identified with the thread using them.  The same_condition ring is the
-   pointer structure of the code: scp / scn = same_condition.prev / .next.
-   Site ids: 100*function + ordinal in Gen/Sites.v:
-     1 nsync_mu_lock 2 nsync_mu_rlock 3 nsync_mu_trylock 4 nsync_mu_rtrylock 5 nsync_mu_lock_slow_
-     6 mu_release_spinlock 7 nsync_mu_unlock 8 nsync_mu_runlock 9 nsync_mu_unlock_slow_
-     10 nsync_mu_wait_with_deadline 11 mu_try_acquire_after_timeout_or_cancel
-     12 nsync_mu_unlock_without_wakeup 13 nsync_remove_from_mu_queue_ 14 nsync_spin_test_and_set_
-   No proofs in this file. *)
+   The defect: nsync_mu_wait_with_deadline computed had_waiters = ((old_word & (MU_DESIG_WAKER|MU_WAITING)) == MU_WAITING)
+   from the word it read when it took the spinlock and used it later, in the loop that releases the lock.  A caller A that
+   holds a READER lock does not exclude other readers: the designated waker D (a woken reader) can re-acquire in reader
+   mode -- clearing MU_DESIG_WAKER -- and runlock through the fast path (two readers: not the last) in between; A then
+   releases lock and spinlock directly (had_waiters = 0).  The mutex is free, MU_WAITING set, no designated waker, and
+   nobody scans the queue.  The real library reproduced it (harness scenario rdwait_stuck, seeds 1 (scripted) and 1927).
+
+   Compile (from /verif/coq, after the chain Base/CSem, Gen/Consts, Gen/Sites):
+     coqc -Q Base NsyncBase -Q Gen NsyncGen ../docs/F13_witness.v
+   Only the generated site definitions of coq/Gen are used (the same before and after the repair: the repaired lines are
+   control flow of nsync_mu_wait_with_deadline, hand-modelled in SpinCas KWait / MwRelLoad below). *)
 From NsyncBase Require Import CSem.
 From NsyncGen Require Import Consts Sites.
 From Coq Require Import List ZArith Bool.
 Import ListNotations.
 Local Open Scope Z_scope.
 
+Module OldModel.
 Inductive mode := W | R.
 Definition mode_eqb (a b : mode) := match a, b with W, W | R, R => true | _, _ => false end.
 
@@ -547,7 +548,7 @@ Definition step_thr (w0 : world) (t : nat) (c : choice) : world * ev :=
         match k with
         | KWait =>
             let x := get_mw w2 t in
-            let hadw := negb (band old MU_WAITING =? 0) in     (* had_waiters = ((old_word & MU_WAITING) != 0) *)
+            let hadw := band old (bor MU_DESIG_WAKER MU_WAITING) =? MU_WAITING in
             let w3 := if mw_first x
                       then set_queue (w_merge w2 (last_opt (queue w2)) (Some t)) (queue w2 ++ [t])
                       else set_queue (w_merge w2 (Some t) (first_opt (queue w2))) (t :: queue w2) in
@@ -702,8 +703,7 @@ Definition step_thr (w0 : world) (t : nat) (c : choice) : world * ev :=
       let old := word w in
       let x := get_mw w t in
       let a := lt_add_to_acquire (lt_of (mw_mode x)) in
-      (* the designated waker is judged from the word being replaced by the releasing CAS *)
-      let add := if (band (wrap_u 32 (old - a)) MU_ANY_LOCK =? 0) && mw_hadw x && (band old MU_DESIG_WAKER =? 0) then 0 else a in
+      let add := if (band (wrap_u 32 (old - a)) MU_ANY_LOCK =? 0) && mw_hadw x then 0 else a in
       (set_pc w t (MwRelCas old add), EvLoad 1004 old)
   | MwRelCas old add =>
       let new := nsync_mu_wait_with_deadline_cas1_new old add in
@@ -797,3 +797,87 @@ Definition init (progs : list (list op)) (cl : nat -> nat) (clock0 : Z) : world 
        (map (fun p => mk_t Idle p None false false None None) progs).
 
 Definition run (w : world) (sched : list actor) : world := fold_left (fun w a => fst (step w a)) sched w.
+
+End OldModel.
+
+Import OldModel.
+
+(* the statement of Props/Properties_C06.v, over the old model *)
+Definition cond_true (w : world) (c : cond) : bool := match c with None => true | Some (f, a) => pst w f a end.
+Definition eq_truth_preserving (cl : nat -> nat) (ps : nat -> nat -> bool) : Prop :=
+  forall f a b, cl a = cl b -> ps f a = ps f b.
+Definition no_nw (progs : list (list op)) : Prop := forall ops, In ops progs -> ~ In OUnlockNW ops.
+Definition lost_wakeup (w : world) : Prop :=
+  (forall t c, fst (step w (Thr t c)) = w) /\ (forall t, held (get w t) = None) /\
+  exists t x, mw (get w t) = Some x /\ In t (queue w) /\ cond_true w (mw_cond x) = true.
+Definition C06_no_stuck_full : Prop := forall progs cl c0 sched,
+  Z.of_nat (length progs) < 2 ^ 24 - 1 -> no_nw progs ->
+  let w := run (init progs cl c0) sched in eq_truth_preserving (cls w) (pst w) -> ~ lost_wakeup w.
+
+(* A = thread 0 (reader-mode waiter, condition never true), X = 1 (makes Y's condition true), D = 2 (reader: the designated
+   waker), Y = 3 (writer-mode waiter) *)
+Definition f13_progs : list (list op) :=
+  [[OLock R; OMuWait (Some (0%nat, 0%nat)) false None false; OUnlock];
+   [OLock W; OSetCond 1 0 true; OUnlock];
+   [OLock R; OUnlock];
+   [OLock W; OMuWait (Some (1%nat, 0%nat)) false None false; OUnlock]].
+Definition T (t : nat) : actor := Thr t CNormal.
+Definition f13_sched : list actor :=
+  [T 3] ++ repeat (T 2) 8      (* Y locks; D queues and sleeps *)
+  ++ repeat (T 3) 22           (* Y waits: queues behind D; its unlock_slow wakes D (MU_DESIG_WAKER set); Y sleeps *)
+  ++ repeat (T 1) 7            (* X locks, makes Y's condition true, unlocks through the fast path (a designated waker exists) *)
+  ++ repeat (T 0) 9            (* A rlocks (barges), enters nsync_mu_wait, takes the spinlock: had_waiters = 0; queues itself *)
+  ++ repeat (T 2) 7            (* D re-acquires in reader mode (clears MU_DESIG_WAKER), runlocks: fast path, not the last reader *)
+  ++ repeat (T 0) 3.           (* A releases spinlock and lock directly; sleeps *)
+Definition f13_w : world := run (init f13_progs (fun x => x) 0) f13_sched.
+
+Lemma quiescent_check (w : world) (n : nat) :
+  length (thr w) = n ->
+  (forall t, (t < n)%nat -> forall c, fst (step_thr w t c) = w) ->
+  forall t c, fst (step w (Thr t c)) = w.
+Proof.
+  intros L H t c. cbn [step]. destruct (Nat.lt_ge_cases t n) as [Lt|Ge]; [apply H; exact Lt|].
+  assert (G : get w t = dflt_t) by (unfold get; apply nth_overflow; rewrite L; exact Ge).
+  assert (B : begin_op w t = w) by (unfold begin_op; rewrite G; reflexivity).
+  unfold step_thr. rewrite B. cbv zeta. rewrite G. reflexivity.
+Qed.
+
+(* world equality by computation needs extensional function fields: compare the computed record field by field *)
+Lemma world_eq (a b : world) :
+  word a = word b -> queue a = queue b -> waiting a = waiting b -> sem a = sem b -> wtype a = wtype b -> wcond a = wcond b ->
+  weq a = weq b -> rcount a = rcount b -> scp a = scp b -> scn a = scn b -> cls a = cls b -> pst a = pst b -> clock a = clock b ->
+  note a = note b -> evlog a = evlog b -> thr a = thr b -> a = b.
+Proof. destruct a, b; cbn; intros; subst; reflexivity. Qed.
+
+Theorem F13_final_state :
+  word f13_w = 20 /\ queue f13_w = [3%nat; 0%nat] /\
+  map t_pc (thr f13_w) = [MwSemP; Idle; Idle; MwSemP] /\ map held (thr f13_w) = [None; None; None; None] /\
+  map t_ops (thr f13_w) = [[OUnlock]; []; []; [OUnlock]] /\
+  sem f13_w 0%nat = 0 /\ sem f13_w 3%nat = 0 /\ waiting f13_w 0%nat = true /\ waiting f13_w 3%nat = true /\
+  pst f13_w 1%nat 0%nat = true /\ wcond f13_w 3%nat = Some (1%nat, 0%nat).
+Proof. vm_compute. repeat split; reflexivity. Qed.
+
+Theorem C06_no_stuck_full_refuted : ~ C06_no_stuck_full.
+Proof.
+  intros H. apply (H f13_progs (fun x => x) 0 f13_sched).
+  - vm_compute; reflexivity.
+  - intros ops [<-|[<-|[<-|[<-|[]]]]] HI; cbn in HI; repeat (destruct HI as [HI|HI]; [discriminate HI|]); exact HI.
+  - intros f a b E; vm_compute in E; subst; reflexivity.
+  - split; [|split].
+    + (* quiescent: A and Y are asleep in the semaphore wait of nsync_mu_wait (count 0, no deadline, not cancellable),
+         X and D have finished *)
+      apply (quiescent_check _ 4%nat); [vm_compute; reflexivity|].
+      intros t Lt c.
+      destruct t as [|[|[|[|k]]]]; [| | | |exfalso; do 4 apply Nat.succ_lt_mono in Lt; inversion Lt];
+        destruct c; vm_compute; reflexivity.
+    + (* nobody holds the mutex *)
+      assert (L : length (thr (run (init f13_progs (fun x : nat => x) 0) f13_sched)) = 4%nat) by (vm_compute; reflexivity).
+      intros [|[|[|[|k]]]]; try (vm_compute; reflexivity).
+      unfold get; rewrite nth_overflow by (rewrite L; apply le_n_S, le_n_S, le_n_S, le_n_S, Nat.le_0_l); reflexivity.
+    + (* Y is queued and its condition is true *)
+      exists 3%nat, (mk_mw W (Some (1%nat, 0%nat)) false None false false 0 true 0 false 0 None (Some W)).
+      split; [vm_compute; reflexivity|]. split; [vm_compute; auto|]. vm_compute; reflexivity.
+Qed.
+
+Print Assumptions F13_final_state.
+Print Assumptions C06_no_stuck_full_refuted.
